@@ -1187,6 +1187,9 @@ class OpsMixin:
             return self.call_type(fn, args, kwargs)
         if isinstance(fn, SOpaque):
             return SOpaque("call")
+        if type(fn).__name__ == "builtin_function_or_method" and isinstance(getattr(fn, "__self__", None), (str, bytes)):
+            # a bound method of a constant string captured in a module constant (e.g. join_unicode = "".join)
+            return self.call_value(self.method_of(fn.__self__, fn.__name__), args, kwargs)
         if isinstance(fn, SObj) and fn.is_class:
             hook = self.c.globals.get("new." + fn.name) or self.c.globals.get("new.*")
             if hook is not None:
